@@ -14,6 +14,7 @@
  * limitations under the License.
  */
 
+#include <unifex/detail/verif_hooks.hpp>
 #include <unifex/v2/async_manual_reset_event.hpp>
 
 namespace unifex::v2 {
@@ -24,12 +25,14 @@ void async_manual_reset_event::set() noexcept {
   // latched and empty; the event object is not touched again,
   // so it is safe even if a waiter's completion destroys it.
   atomic_intrusive_list<waiter_base, true> local;
+  UNIFEX_VERIF_POINT(311);
   waiters_.latch_and_drain(local);
 
   // pop_front sets self=nullptr just before returning each
   // item, so try_remove from a concurrent stop callback can
   // still succeed on items not yet popped.
   while (auto* w = local.pop_front()) {
+    UNIFEX_VERIF_POINT(312);
     w->resume_(w);
   }
 }
